@@ -275,11 +275,13 @@ class Harness:
 
 
 def _jsonable(x):
-    try:
-        json.dumps(x)
+    if isinstance(x, dict):
+        return {(k if isinstance(k, (str, int, float, bool)) or k is None else str(k)): _jsonable(v) for k, v in x.items()}
+    if isinstance(x, (list, tuple, set, frozenset)):
+        return [_jsonable(v) for v in x]
+    if isinstance(x, (str, int, float, bool)) or x is None:
         return x
-    except TypeError:
-        return json.loads(json.dumps(x, default=str))
+    return str(x)
 
 
 def run_impl(h, case):
